@@ -58,3 +58,104 @@ Qed.
 
 Lemma gen_rrulestr_dtstart_lemma : gen_rrulestr_dtstart_is_onset = true.
 Proof. reflexivity. Qed.
+
+(* ---- the component selection of _find_comp (scan loop + default) ---- *)
+Definition sel_rel (cs : list comp) (g : option Z * option comp) (h : option (Z * nat)) : Prop :=
+  match h with
+  | None => g = (None, None)
+  | Some (d, i) => exists c, g = (Some d, Some c) /\ nth_error cs i = Some c
+  end.
+
+Lemma scan_fold cs w f : forall rest pre g h,
+  cs = pre ++ rest -> sel_rel cs g h ->
+  sel_rel cs
+    (fold_left (fun '(lastcompdt, lastcomp) comp =>
+       let compdt := gen_find_compdt cs comp w f in
+       let '(lastcompdt, lastcomp) :=
+         if match compdt with
+            | Some s0_ => match lastcompdt with Some s1_ => s1_ <? s0_ | None => true end
+            | None => false end
+         then (let lastcompdt := compdt in let lastcomp := Some comp in (lastcompdt, lastcomp))
+         else (lastcompdt, lastcomp) in
+       (lastcompdt, lastcomp)) rest g)
+    (scan_comps rest (length pre) w f h).
+Proof.
+  induction rest as [|c rest IH]; intros pre g h Hcs Hr; [exact Hr|].
+  cbn [fold_left scan_comps].
+  assert (Hn : nth_error cs (length pre) = Some c).
+  { rewrite Hcs. rewrite nth_error_app2 by lia. replace (length pre - length pre)%nat with O by lia. reflexivity. }
+  replace (S (length pre)) with (length (pre ++ [c])) by (rewrite app_length; cbn; lia).
+  apply IH; [rewrite <- app_assoc; exact Hcs|].
+  destruct g as [ld lc]. cbv beta iota zeta. rewrite gen_find_compdt_eq.
+  destruct (find_compdt c w f) as [d|].
+  - destruct h as [[hd hi]|]; cbn [sel_rel] in Hr |- *.
+    + destruct Hr as (c0 & E & N). inversion E; subst ld lc.
+      destruct (hd <? d); cbn [sel_rel]; [exists c; split; [reflexivity|exact Hn]|exists c0; split; [reflexivity|exact N]].
+    + inversion Hr; subst ld lc. cbn [sel_rel]. exists c. split; [reflexivity|exact Hn].
+  - destruct h as [[hd hi]|]; cbn [sel_rel] in Hr |- *; exact Hr.
+Qed.
+
+Lemma find_first_std cs : forall k,
+  match first_std cs k with
+  | Some i => exists c, find (fun comp => negb (c_isdst comp)) cs = Some c /\ nth_error cs (i - k) = Some c /\ (k <= i)%nat
+  | None => find (fun comp => negb (c_isdst comp)) cs = None
+  end.
+Proof.
+  induction cs as [|c t IH]; intros k; [reflexivity|].
+  cbn [first_std find]. destruct (negb (c_isdst c)).
+  - exists c. replace (k - k)%nat with O by lia. split; [reflexivity|split; [reflexivity|lia]].
+  - specialize (IH (S k)). destruct (first_std t (S k)) as [i|]; [|exact IH].
+    destruct IH as (c0 & F & N & L). exists c0. split; [exact F|]. split; [|lia].
+    replace (i - k)%nat with (S (i - S k)) by lia. exact N.
+Qed.
+
+Lemma gen_select_comp_eq cs w f : gen_select_comp cs w f = get_comp cs (find_comp_nocache cs w f).
+Proof.
+  unfold gen_select_comp, find_comp_nocache. cbv zeta.
+  pose proof (scan_fold cs w f cs [] (None, None) None eq_refl eq_refl) as R. cbn [length] in R.
+  destruct (scan_comps cs 0 w f None) as [[d i]|]; cbn [sel_rel] in R.
+  - destruct R as (c & E & N). rewrite E. cbn [is_none negb rbind get_comp]. rewrite N. reflexivity.
+  - rewrite R. cbn [is_none negb].
+    pose proof (find_first_std cs 0) as F.
+    destruct (first_std cs 0) as [i|].
+    + destruct F as (c & Fc & N & _). rewrite Fc. cbn [rbind get_comp].
+      replace (i - 0)%nat with i in N by lia. rewrite N. reflexivity.
+    + rewrite F. destruct cs as [|c0 t]; reflexivity.
+Qed.
+
+(* ---- the two cache regions of _find_comp against the cache model (IcalConcModel stores the
+        INDEX of a component; the code stores the component object: g maps one to the other) ---- *)
+Lemma map_removelast {A B} (g : A -> B) (l : list A) : map g (removelast l) = removelast (map g l).
+Proof.
+  induction l as [|a [|b t] IH]; [reflexivity|reflexivity|].
+  change (removelast (a :: b :: t)) with (a :: removelast (b :: t)).
+  cbn [map] in *. rewrite IH. reflexivity.
+Qed.
+
+Lemma gen_cache_hit_eq (g : nat -> comp) dates idxs w f :
+  gen_cache_hit dates (map g idxs) w f =
+  match index_of dates (w, f) 0 with
+  | Some i => option_map g (nth_error idxs i)
+  | None => None
+  end.
+Proof.
+  unfold gen_cache_hit. destruct (index_of dates (w, f) 0) as [i|]; [|reflexivity].
+  apply nth_error_map.
+Qed.
+
+Lemma gen_cache_insert_eq (g : nat -> comp) dates idxs w f c :
+  gen_cache_insert dates (map g idxs) w f (g c) =
+  let sh := insert_front (mkSh dates idxs) (w, f) c in (sh_dates sh, map g (sh_comps sh)).
+Proof.
+  unfold gen_cache_insert, insert_front. cbv zeta. cbn [sh_dates sh_comps map].
+  change (length ((w, f) :: dates)) with (S (length dates)).
+  destruct (10 <? S (length dates))%nat; cbn [sh_dates sh_comps]; [|reflexivity].
+  rewrite map_removelast. reflexivity.
+Qed.
+
+Lemma gen_cache_regions_lemma : forall (g : nat -> comp) dates idxs w f c,
+  gen_cache_hit dates (map g idxs) w f =
+    match index_of dates (w, f) 0 with Some i => option_map g (nth_error idxs i) | None => None end /\
+  gen_cache_insert dates (map g idxs) w f (g c) =
+    (let sh := insert_front (mkSh dates idxs) (w, f) c in (sh_dates sh, map g (sh_comps sh))).
+Proof. intros. split; [apply gen_cache_hit_eq|apply gen_cache_insert_eq]. Qed.
